@@ -103,3 +103,436 @@ def gen_C05(tier, rng):
 
 
 GENERATORS = {"C02": gen_C02, "C05": gen_C05}
+
+
+# ------------------------------------------------------------------ C01
+def conv_paths(c, start_reg, start_kind, depth, obs=True):
+    """all conversion paths of length <= depth from the start register; returns number of paths"""
+    count = 0
+    frontier = [(start_reg, start_kind)]
+    for _ in range(depth):
+        nxt = []
+        for reg, k in frontier:
+            for tgt in "ETB":
+                if tgt == k: continue
+                r = c.r("conv %s %d" % (tgt, reg))
+                if obs: c.q("obs %d" % r)
+                nxt.append((r, tgt)); count += 1
+        frontier = nxt
+    return count
+
+
+def gen_C01(tier, rng):
+    cases = []; dist = collections.Counter(); n = 0
+    depth = 3 if tier == "quick" else 5
+    for nv in range(0, 4):
+        vs = ["a", "b", "c"][:nv]
+        for tv in gen.all_tvs(nv):
+            forms = ["dnf", "cnf", "mix"] if (nv <= 2 or tier != "quick") else [("dnf", "cnf", "mix")[int(tv, 2) % 3]]
+            for form in forms:
+                e = gen.expr_of_tv(vs, tv, form)
+                c = Case("c01_%d" % n); n += 1
+                r0 = c.r("expr " + pe(e)); c.q("obs %d" % r0)
+                np_ = conv_paths(c, r0, "E", depth)
+                dist["vars%d" % nv] += 1; dist["paths"] += np_
+                cases.append(c.done("%d/%s/%s" % (nv, tv, form), len(set(tv)) > 1))
+    for _ in range(120 if tier == "quick" else 1200):
+        names = gen.NAMES[: rng.randint(2, 7)]
+        e = gen.rand_tree(rng, rng.randint(2, 6), names)
+        c = Case("c01_%d" % n); n += 1
+        reg = c.r("expr " + pe(e)); k = "E"; c.q("obs %d" % reg)
+        for _ in range(rng.randint(3, 10)):
+            tgt = rng.choice([t for t in "ETB" if t != k])
+            reg = c.r("conv %s %d" % (tgt, reg)); k = tgt
+            c.q("obs %d" % reg)
+        dist["random_chain"] += 1
+        cases.append(c.done(pe(e), True))
+    return {"cases": cases, "exhaustive": True, "dist": dict(dist),
+            "rule": "every truth function of <= 3 variables as an expression (DNF/CNF/Shannon shapes; quick: one shape per 3-variable function) pushed through EVERY conversion path of length <= %d (2+4+..+2^k paths), full observation after each step; random trees through random chains of 3-10 conversions; non-trivial = non-constant function; distinct = (function, shape)" % depth}
+
+
+# ------------------------------------------------------------------ C03 / C04
+def aligned_pairs(universe, maxv, rng=None, sample3=0):
+    """(vs_f, tv_f, vs_g, tv_g) for every ordered pair of truth functions of <= maxv variables under every alignment"""
+    out = []
+    subsets = {k: list(itertools.combinations(universe, k)) for k in range(maxv + 1)}
+    for nf in range(maxv + 1):
+        for ng in range(maxv + 1):
+            for vf in subsets[nf]:
+                for vg in subsets[ng]:
+                    for tf in gen.all_tvs(nf):
+                        for tg in gen.all_tvs(ng):
+                            out.append((list(vf), tf, list(vg), tg))
+    return out
+
+
+OPS2 = ["and", "or", "xor", "imply", "iff"]
+FORMS = ["val", "ref", "assign"]
+
+
+def gen_C03(tier, rng):
+    cases = []; dist = collections.Counter(); n = 0
+    universe = ["a", "b", "c"] if tier == "quick" else ["a", "b", "c", "d"]
+    pairs = aligned_pairs(universe, 2)
+    k = 0
+    for vf, tf, vg, tg in pairs:
+        c = Case("c03_%d" % n); n += 1
+        f = gen.expr_of_tv(vf, tf, "dnf"); g = gen.expr_of_tv(vg, tg, "cnf" if n % 2 else "dnf")
+        rf = three_reps(c, f); rg = three_reps(c, g)
+        for x, y in zip(rf, rg):
+            for op in OPS2:
+                r = c.r("op2 %s %s %d %d" % (op, FORMS[k % 3], x, y)); k += 1
+                c.q("obs %d" % r)
+            r = c.r("op1 not %d" % x); c.q("obs %d" % r)
+        sf, sg = set(vf), set(vg)
+        dist["align_%d_%d_%d" % (len(sf), len(sg), len(sf & sg))] += 1
+        cases.append(c.done("%s:%s|%s:%s" % ("".join(vf), tf, "".join(vg), tg), (sf - sg) and (sg - sf)))
+    # three-variable operands, sampled alignments; larger random operands
+    u5 = ["a", "b", "c", "d", "e"]
+    for _ in range(400 if tier == "quick" else 6000):
+        vf = sorted(rng.sample(u5, 3)); vg = sorted(rng.sample(u5, rng.choice([2, 3])))
+        tf = "".join(rng.choice("01") for _ in range(8)); tg = "".join(rng.choice("01") for _ in range(1 << len(vg)))
+        c = Case("c03_%d" % n); n += 1
+        rf = three_reps(c, gen.expr_of_tv(vf, tf, "dnf")); rg = three_reps(c, gen.expr_of_tv(vg, tg, "mix"))
+        for x, y in zip(rf, rg):
+            for op in OPS2:
+                r = c.r("op2 %s %s %d %d" % (op, FORMS[k % 3], x, y)); k += 1
+                c.q("obs %d" % r)
+        dist["three_var_sampled"] += 1
+        cases.append(c.done("%s:%s|%s:%s" % ("".join(vf), tf, "".join(vg), tg), set(vf) - set(vg) and set(vg) - set(vf)))
+    for _ in range(60 if tier == "quick" else 600):
+        names = gen.NAMES[: rng.randint(5, 8)]
+        f = gen.rand_tree(rng, 5, rng.sample(names, rng.randint(3, len(names))))
+        g = gen.rand_tree(rng, 5, rng.sample(names, rng.randint(3, len(names))))
+        c = Case("c03_%d" % n); n += 1
+        rf = three_reps(c, f); rg = three_reps(c, g)
+        for x, y in zip(rf, rg):
+            for op in OPS2:
+                r = c.r("op2 %s %s %d %d" % (op, FORMS[k % 3], x, y)); k += 1
+                c.q("obs %d" % r)
+        dist["random_large"] += 1
+        cases.append(c.done(pe(f) + "|" + pe(g), True))
+    return {"cases": cases, "exhaustive": True, "dist": dict(dist),
+            "rule": "every ordered pair of truth functions of <= 2 variables under every alignment of their variable sets inside a %d-name universe, x {and, or, xor, imply, iff} (+ not) x three representations, by-value / by-reference / in-place forms in rotation; sampled 3-variable pairs and random 5-8 input operands; non-trivial = the input sets differ and neither contains the other; distinct = aligned pair" % len(universe)}
+
+
+def identity_histories(c, reg, kind, which):
+    """an object denoting the same function, obtained through a history"""
+    if which == 0:
+        return c.r("restrict %d 0" % reg)
+    if which == 1:
+        t = c.r("mkconst %s 1" % ("E" if kind == "E" else "B")) if kind != "T" else None
+        if kind == "T":
+            e = c.r("expr C 1"); t = c.r("conv T %d" % e)
+        return c.r("op2 and val %d %d" % (reg, t))
+    if which == 2:
+        x = c.r("op1 not %d" % reg); return c.r("op1 not %d" % x)
+    if which == 3:
+        other = {"E": "T", "T": "E", "B": "E"}[kind]   # avoid the known-defective T->B step
+        x = c.r("conv %s %d" % (other, reg)); return c.r("conv %s %d" % (kind, x))
+    return c.r("exists %d 1 %s" % (reg, hexname("zz")))
+
+
+def gen_C04(tier, rng):
+    cases = []; dist = collections.Counter(); n = 0
+    universe = ["a", "b", "c"]
+    pairs = aligned_pairs(universe, 2)
+    if tier == "quick":
+        pairs = [p for i, p in enumerate(pairs) if i % 2 == 0 or p[1] == p[3]]
+    for idx, (vf, tf, vg, tg) in enumerate(pairs):
+        c = Case("c04_%d" % n); n += 1
+        rf = three_reps(c, gen.expr_of_tv(vf, tf, "dnf")); rg = three_reps(c, gen.expr_of_tv(vg, tg, "cnf"))
+        for kind, x, y in zip("ETB", rf, rg):
+            c.q("equiv %d %d" % (x, y)); c.q("implied %d %d" % (x, y)); c.q("semeq %d %d" % (x, y))
+            h = (idx + "ETB".index(kind)) % 5
+            if kind == "T" and h == 3: h = 2
+            x2 = identity_histories(c, x, kind, h); y2 = identity_histories(c, y, kind, (h + 2) % 5 if not (kind == "T" and (h + 2) % 5 == 3) else 0)
+            c.q("equiv %d %d" % (x2, y)); c.q("equiv %d %d" % (x2, y2)); c.q("implied %d %d" % (x, y2)); c.q("equiv %d %d" % (x, x2))
+        union = sorted(set(vf) | set(vg))
+        ef = diff_expand(vf, tf, union); eg = diff_expand(vg, tg, union)
+        dist["equal" if ef == eg else ("implied" if all(a == "1" or b == "0" for a, b in zip(ef, eg)) else "neither")] += 1
+        cases.append(c.done("%s:%s|%s:%s" % ("".join(vf), tf, "".join(vg), tg), set(vf) != set(vg)))
+    for _ in range(200 if tier == "quick" else 3000):
+        vs = sorted(rng.sample(["a", "b", "c", "d"], 3))
+        tf = "".join(rng.choice("01") for _ in range(8))
+        tg = tf if rng.random() < 0.4 else "".join((ch if rng.random() < 0.8 else "1") for ch in tf)
+        c = Case("c04_%d" % n); n += 1
+        rf = three_reps(c, gen.expr_of_tv(vs, tf, "mix")); rg = three_reps(c, gen.expr_of_tv(vs, tg, "dnf"))
+        for x, y in zip(rf, rg):
+            c.q("equiv %d %d" % (x, y)); c.q("implied %d %d" % (x, y)); c.q("implied %d %d" % (y, x))
+        dist["three_var"] += 1
+        cases.append(c.done("%s:%s|%s" % ("".join(vs), tf, tg), True))
+    return {"cases": cases, "exhaustive": tier != "quick", "dist": dict(dist),
+            "rule": "ordered pairs of truth functions of <= 2 variables under every alignment in a 3-name universe (quick: every second pair plus all pairs with equal vectors), each operand also obtained through an identity history (restrict {}, & true, double negation, round trip through another representation, exists {foreign}); is_equivalent / is_implied_by / semantic_eq in three representations; sampled 3-variable pairs; the evidence counts equal / implied / neither outcomes; non-trivial = different input sets"}
+
+
+def diff_expand(ins, tv, union):
+    from .diff import expand
+    return expand(list(ins), tv, list(union))
+
+
+# ------------------------------------------------------------------ C06 / C07
+def gen_quant(prefix, ops, tier, rng):
+    cases = []; dist = collections.Counter(); n = 0
+    universe = ["a", "b", "c", "z"]
+    subsets = [list(s) for k in range(5) for s in itertools.combinations(universe, k)]
+    for nv in range(0, 4):
+        vs = ["a", "b", "c"][:nv]
+        for tv in gen.all_tvs(nv):
+            form = ("dnf", "cnf", "mix")[int(tv, 2) % 3] if nv == 3 and tier == "quick" else None
+            for fm in ([form] if form else ["dnf", "mix"]):
+                c = Case("%s_%d" % (prefix, n)); n += 1
+                regs = three_reps(c, gen.expr_of_tv(vs, tv, fm))
+                nt = False
+                for V in subsets:
+                    if len(set(V) & set(vs)) >= 2 or not V: nt = True
+                    for op in ops:
+                        for r in regs:
+                            k = c.r("%s %d %s" % (op, r, set_tokens(V))); c.q("obs %d" % k)
+                dist["vars%d" % nv] += 1
+                cases.append(c.done("%d/%s/%s" % (nv, tv, fm), nt))
+    for _ in range(80 if tier == "quick" else 800):
+        names = gen.NAMES[: rng.randint(4, 6)]
+        e = gen.rand_tree(rng, 4, names, consts=False, empties=False)
+        c = Case("%s_%d" % (prefix, n)); n += 1
+        regs = three_reps(c, e)
+        for _ in range(4):
+            V = rng.sample(names + ["z"], rng.randint(1, 3))
+            for op in ops:
+                for r in regs[1:]:      # tables and diagrams; expression results grow exponentially
+                    k = c.r("%s %d %s" % (op, r, set_tokens(sorted(V)))); c.q("obs %d" % k)
+        dist["random"] += 1
+        cases.append(c.done(pe(e), True))
+    return cases, dict(dist)
+
+
+def gen_C06(tier, rng):
+    cases, dist = gen_quant("c06", ["exists", "forall"], tier, rng)
+    return {"cases": cases, "exhaustive": True, "dist": dist,
+            "rule": "every truth function of <= 3 variables x every subset of the 4-name universe {a,b,c,z} (16 subsets: empty, foreign, several inputs) x {exists, forall} x three representations, full observation; random 4-6 input functions with 1-3 quantified names; non-trivial = the set is empty or contains >= 2 inputs; distinct = (function, shape)"}
+
+
+def gen_C07(tier, rng):
+    cases, dist = gen_quant("c07", ["deriv"], tier, rng)
+    return {"cases": cases, "exhaustive": True, "dist": dist,
+            "rule": "every truth function of <= 3 variables x every subset of {a,b,c,z} x derivative x three representations, full observation; random 4-6 input functions; non-trivial = the set is empty or contains >= 2 inputs (the cases the suite does not have); distinct = (function, shape)"}
+
+
+# ------------------------------------------------------------------ C08
+def gen_C08(tier, rng):
+    cases = []; dist = collections.Counter(); n = 0
+    repl = []
+    for x in ["a", "b", "c"]:
+        repl += [([x], "01"), ([x], "10")]
+    repl += [([], "0"), ([], "1")]
+    for x, y in [("a", "b"), ("a", "c"), ("b", "c")]:
+        repl += [([x, y], "0001"), ([x, y], "0111"), ([x, y], "0110")]
+    keys = ["a", "b", "z"]
+    fs = [(vs, tv) for nv in range(3) for vs in [["a", "b"][:nv]] for tv in gen.all_tvs(nv)]
+    maps = [[(k, g)] for k in keys for g in repl]
+    two = [[(k1, g1), (k2, g2)] for k1, k2 in [("a", "b"), ("a", "z"), ("b", "z")] for g1 in repl for g2 in repl]
+    maps += rng.sample(two, 120 if tier == "quick" else len(two))
+    for vs, tv in fs:
+        if len(vs) < 1 and tier == "quick":
+            use = maps[::7]
+        else:
+            use = maps
+        for m in use:
+            c = Case("c08_%d" % n); n += 1
+            regs = three_reps(c, gen.expr_of_tv(vs, tv, "dnf"))
+            gregs = [three_reps(c, gen.expr_of_tv(gv, gt, "dnf")) for _, (gv, gt) in m]
+            for i, r in enumerate(regs):
+                toks = "%d%s" % (len(m), "".join(" %s %d" % (hexname(k), gregs[j][i]) for j, (k, _) in enumerate(m)))
+                k_ = c.r("subst %d %s" % (r, toks)); c.q("obs %d" % k_)
+            ks = {k for k, _ in m}
+            mentions_other = any(set(gv) & (ks - {k}) for k, (gv, _) in m)
+            foreign = bool(ks - set(vs)); fresh = any("c" in gv for _, (gv, _) in m)
+            selfref = any(k in gv for k, (gv, _) in m)
+            dist["other_key" if mentions_other else "self" if selfref else "foreign" if foreign else "fresh" if fresh else "plain"] += 1
+            cases.append(c.done("%s:%s/%s" % ("".join(vs), tv, m), mentions_other or foreign or fresh))
+    for _ in range(100 if tier == "quick" else 1500):
+        vs = ["a", "b", "c"]
+        tv = "".join(rng.choice("01") for _ in range(8))
+        m = []
+        for k in rng.sample(["a", "b", "c", "z"], rng.randint(1, 3)):
+            gv = sorted(rng.sample([x for x in ["a", "b", "c", "d"] if x != k or rng.random() < 0.1], rng.randint(0, 2)))
+            m.append((k, (gv, "".join(rng.choice("01") for _ in range(1 << len(gv))))))
+        c = Case("c08_%d" % n); n += 1
+        regs = three_reps(c, gen.expr_of_tv(vs, tv, "mix"))
+        gregs = [three_reps(c, gen.expr_of_tv(gv, gt, "dnf")) for _, (gv, gt) in m]
+        for i, r in enumerate(regs):
+            toks = "%d%s" % (len(m), "".join(" %s %d" % (hexname(k), gregs[j][i]) for j, (k, _) in enumerate(m)))
+            k_ = c.r("subst %d %s" % (r, toks)); c.q("obs %d" % k_)
+        dist["three_var_random"] += 1
+        cases.append(c.done("%s/%s" % (tv, m), True))
+    return {"cases": cases, "exhaustive": tier != "quick", "dist": dict(dist),
+            "rule": "every truth function of <= 2 variables over {a,b} as f; maps with one key from {a, b, foreign z} and every replacement from a pool of 17 functions over subsets of {a,b,c} (literals, negated literals, constants, and/or/xor of two), and two-key maps (quick: 120 sampled, thorough: all); three representations; 3-variable f with random 1-3 key maps; non-trivial = a replacement mentions another key, or a key is foreign, or a fresh variable is introduced; the distribution counts these classes and the documented self-reference refusal"}
+
+
+# ------------------------------------------------------------------ C09 / C10
+def padded(vs, tv, pad):
+    """(f over vs) with an extra declared, inessential input `pad`"""
+    return gen.A([gen.expr_of_tv(vs, tv, "dnf"), gen.O([gen.L(pad), gen.Nn(gen.L(pad))])])
+
+
+def gen_enum(prefix, tier, rng, maxv, pads):
+    cases = []; dist = collections.Counter(); n = 0
+    for nv in range(0, maxv + 1):
+        vs = ["a", "b", "c", "d"][:nv]
+        for tv in gen.all_tvs(nv):
+            es = [gen.expr_of_tv(vs, tv, f) for f in (["dnf", "cnf", "mix"] if nv <= 2 else ["dnf"])]
+            if pads:
+                es += [padded(vs, tv, p) for p in ["0", "aa", "bb", "z"][: (4 if nv <= 2 or tier != "quick" else 2)]]
+            c = Case("%s_%d" % (prefix, n)); n += 1
+            for e in es:
+                for r in three_reps(c, e):
+                    c.q("enum %d" % r)
+            dist["vars%d" % nv] += 1
+            from .diff import expand
+            ess = [x for i, x in enumerate(vs) if any(tv[j] != tv[j ^ (1 << (nv - 1 - i))] for j in range(1 << nv))]
+            cases.append(c.done("%d/%s" % (nv, tv), len(ess) < nv or pads))
+    return cases, dict(dist)
+
+
+def gen_C09(tier, rng):
+    cases, dist = gen_enum("c09", tier, rng, 3 if tier == "quick" else 4, True)
+    n = len(cases)
+    for _ in range(60 if tier == "quick" else 600):
+        names = gen.NAMES[: rng.randint(4, 7)]
+        e = gen.rand_tree(rng, 5, names)
+        c = Case("c09_r%d" % n); n += 1
+        for r in three_reps(c, e): c.q("enum %d" % r)
+        cases.append(c.done(pe(e), True)); dist["random"] = dist.get("random", 0) + 1
+    return {"cases": cases, "exhaustive": True, "dist": dist,
+            "rule": "every truth function of <= %d variables in three expression shapes, each also with a declared but inessential input padded in EVERY position of the sorted order (before, between, after), converted to table and diagram; essential_inputs / degree / essential_degree compared with the specification (exists an assignment where flipping changes the value); non-trivial = some declared input is inessential; distinct = function" % (3 if tier == "quick" else 4)}
+
+
+def gen_C10(tier, rng):
+    cases, dist = gen_enum("c10", tier, rng, 3 if tier == "quick" else 4, False)
+    n = len(cases)
+    for k in range(0, 9 if tier == "quick" else 11):
+        c = Case("c10_d%d" % k); n += 1
+        e = gen.A([gen.L(x) for x in gen.NAMES[:k]]) if k else gen.C(1)
+        for r in three_reps(c, e): c.q("enum %d" % r)
+        cases.append(c.done("arity%d" % k, True)); dist["arity%d" % k] = 1
+    for _ in range(40 if tier == "quick" else 400):
+        names = gen.NAMES[: rng.randint(5, 9)]
+        e = gen.rand_tree(rng, 5, names)
+        c = Case("c10_r%d" % n); n += 1
+        for r in three_reps(c, e): c.q("enum %d" % r)
+        cases.append(c.done(pe(e), True)); dist["random"] = dist.get("random", 0) + 1
+    return {"cases": cases, "exhaustive": True, "dist": dist,
+            "rule": "every truth function of <= %d variables in the three representations: domain, image, relation, support, weight, sat_point, degrees (iterators also polled after exhaustion); conjunctions of 0..%d literals for the domain order; random 5-9 input functions; oracle: domain = 2^n points in lexicographic order, image = specified function in that order, relation = zip, support = exactly the 1-points (as a set for diagrams), weight = their number, sat_point in support / none iff empty; non-trivial = all; distinct = function" % (3 if tier == "quick" else 4, 8 if tier == "quick" else 10)}
+
+
+# ------------------------------------------------------------------ C11
+def gen_C11(tier, rng):
+    cases = []; dist = collections.Counter(); n = 0
+    memo = {}
+    upto = 4 if tier == "quick" else 5
+    def add(e, tag):
+        nonlocal n
+        c = Case("c11_%d" % n); n += 1
+        r0 = c.r("expr " + pe(e)); c.q("preds %d" % r0)
+        for op in ("nnf", "cnf", "dnf"):
+            k = c.r("op1 %s %d" % (op, r0)); c.q("obs %d" % k); c.q("preds %d" % k)
+        s = pe(e)
+        nested = ("O" in s and "A" in s)
+        dist[tag] += 1
+        cases.append(c.done(s, nested or " 0" in s or "A 1 " in s or "O 1 " in s))
+    for s in range(1, upto + 1):
+        for e in gen.enum_trees(s, LEAVES, 3, memo):
+            add(e, "size%d" % s)
+    trees = gen.enum_trees(upto + 1, LEAVES, 3, memo)
+    for e in rng.sample(trees, min(len(trees), 3000 if tier == "quick" else 30000)):
+        add(e, "size%d_sampled" % (upto + 1))
+    for _ in range(300 if tier == "quick" else 3000):
+        add(gen.rand_tree(rng, rng.randint(3, 5), gen.NAMES[: rng.randint(2, 5)], max_arity=3), "random")
+    return {"cases": cases, "exhaustive": True, "dist": dict(dist),
+            "rule": "every expression tree with <= %d nodes over 3 names, constants, n-ary arities 0..3 (plus a sample of the next size and random deeper trees): to_nnf / to_cnf / to_dnf, the returned TREE compared with the model, truth vector and variables with the specification, is_nnf / is_cnf / is_dnf on inputs and results compared with the model's predicates (proved equal to the reference shapes); non-trivial = mixes And and Or or has an arity-0/1 node; distinct = tree" % upto}
+
+
+# ------------------------------------------------------------------ C15 / C20
+def random_program(rng, c, length, names, allow_tb=True):
+    """a random well-typed program (fills c). Kinds and a size estimate are tracked so that
+    instructions stay valid and expression trees stay below a few thousand nodes."""
+    kinds = []; sizes = []
+    LIMIT = 1500
+    def pick(k=None, maxsize=LIMIT):
+        idx = [i for i, kk in enumerate(kinds) if (k is None or kk == k) and sizes[i] <= maxsize]
+        return rng.choice(idx) if idx else None
+    def push(k, sz): kinds.append(k); sizes.append(sz)
+    def fresh_expr():
+        e = gen.rand_tree(rng, rng.randint(1, 3), rng.sample(names, rng.randint(1, len(names))), max_arity=3)
+        push("E", gen.size(e)); return c.r("expr " + pe(e))
+    nn = len(names) + 1
+    fresh_expr()
+    guard = 0
+    while len(kinds) < length and guard < 10 * length:
+        guard += 1
+        r = rng.random()
+        before = len(kinds)
+        if r < 0.10:
+            fresh_expr()
+        elif r < 0.30:
+            i = pick(); tgt = rng.choice([t for t in "ETB" if t != kinds[i]])
+            if kinds[i] == "T" and tgt == "B" and not allow_tb: tgt = "E"
+            c.r("conv %s %d" % (tgt, i)); push(tgt, (nn * (1 << nn)) if tgt == "E" else 1)
+        elif r < 0.50:
+            i = pick(maxsize=300); 
+            if i is None: continue
+            j = pick(kinds[i], maxsize=300)
+            op = rng.choice(OPS2)
+            c.r("op2 %s %s %d %d" % (op, rng.choice(FORMS), i, j))
+            push(kinds[i], (sizes[i] + sizes[j]) * (2 if op in ("xor", "iff") else 1) + 3 if kinds[i] == "E" else 1)
+        elif r < 0.56:
+            i = pick(); c.r("op1 not %d" % i); push(kinds[i], sizes[i] + 1)
+        elif r < 0.68:
+            i = pick(); v = [(x, rng.random() < 0.5) for x in names + ["zz"] if rng.random() < 0.3]
+            c.r("restrict %d %s" % (i, val_tokens(v))); push(kinds[i], sizes[i])
+        elif r < 0.82:
+            i = pick(("T", "B")[rng.random() < 0.5]) if rng.random() < 0.8 else pick(maxsize=60)
+            if i is None: i = pick(maxsize=60)
+            if i is None: continue
+            V = sorted(rng.sample(names + ["zz"], rng.randint(0, 2)))
+            q = rng.choice(["exists", "forall", "deriv"])
+            c.r("%s %d %s" % (q, i, set_tokens(V)))
+            push(kinds[i], sizes[i] * ((5 if q == "deriv" else 2) ** len(V)) + 3 if kinds[i] == "E" else 1)
+        elif r < 0.94:
+            i = pick(maxsize=40)
+            if i is None: continue
+            ks = rng.sample(names + ["zz"], rng.randint(1, 2))
+            m = [(k, pick(kinds[i], maxsize=40)) for k in sorted(ks)]
+            c.r("subst %d %d%s" % (i, len(m), "".join(" %s %d" % (hexname(k), j) for k, j in m)))
+            push(kinds[i], sizes[i] * max(sizes[j] for _, j in m) if kinds[i] == "E" else 1)
+        elif r < 0.97:
+            k = rng.choice("EB"); c.r("mkliteral %s %s %d" % (k, hexname(rng.choice(names)), rng.randint(0, 1))); push(k, 2)
+        else:
+            i = pick("E", maxsize=14)
+            if i is None: continue
+            op = rng.choice(["nnf", "cnf", "dnf"])
+            c.r("op1 %s %d" % (op, i)); push("E", sizes[i] * 2 if op == "nnf" else min(LIMIT, 4 ** min(sizes[i], 6)))
+        if len(kinds) == before: continue
+        last = len(kinds) - 1
+        c.q("obs %d" % last)
+        if rng.random() < 0.25: c.q("enum %d" % last)
+    return kinds
+
+
+def gen_C15(tier, rng):
+    cases = []; dist = collections.Counter()
+    nprog = 700 if tier == "quick" else 12000
+    for n in range(nprog):
+        c = Case("c15_%d" % n)
+        names = gen.NAMES[: rng.randint(2, 5)]
+        kinds = random_program(rng, c, rng.randint(5, 30), names, allow_tb=(n % 4 == 0))
+        for ln in c.lines:
+            if ln.startswith("r "): dist[ln.split()[1]] += 1
+        for k in kinds: dist["kind_" + k] += 1
+        cases.append(c.done("prog%d" % n, True))
+    return {"cases": cases, "exhaustive": False, "dist": dict(dist),
+            "rule": "random well-typed programs of 5-30 instructions over {expr, conversions, connectives in all three call forms, not, restrict, exists/forall/derivative, substitute, mk_literal, normal forms} on a pool of objects of the three representations over 2-5 names plus a foreign one; after EVERY instruction: raw vectors through the hook, validate(), num_vars, the canonical unfolding of the node array, inputs, truth vector (and every fourth time all enumerations and the node count), compared with the model and the specification run on the same program; one program in four may use the table->diagram conversion (known finding D1); non-trivial = all; distinct = program"}
+
+
+GENERATORS.update({"C01": gen_C01, "C03": gen_C03, "C04": gen_C04, "C06": gen_C06, "C07": gen_C07, "C08": gen_C08,
+                   "C09": gen_C09, "C10": gen_C10, "C11": gen_C11, "C15": gen_C15})
